@@ -151,8 +151,11 @@ def _numeric_rank(m):
     if s.size == 0 or s[0] == 0:
         return 0, False
     rel = s / s[0]
-    r = int(np.sum(rel > 1e-6))
-    amb = bool(np.any((rel <= 1e-6) & (rel > 1e-12)))
+    # the library (like numpy.linalg.matrix_rank) counts a singular value as non-zero above max(M, N) * spacing(s_max), i.e. between
+    # N eps / 2 and N eps relative: that convention is the definition here; a factor 4 around it is not judged
+    thr = max(np.shape(m)[-2:]) * np.finfo(float).eps
+    r = int(np.sum(rel > thr))
+    amb = bool(np.any((rel > thr / 4) & (rel < 4 * thr)))
     return r, amb
 
 
